@@ -131,6 +131,34 @@ Theorem C16_failure_never_revives_swap_refuted :
 Proof. exact C16_failure_never_revives_swap_refuted_proof. Qed.
 Print Assumptions C16_failure_never_revives_swap_refuted.
 
+(* successful traffic, for every history and every counter state (in particular a traffic streak of 0 after a
+   death through the probe counter or a reload hand-over): a dead data-UDP type comes back with both counts and
+   the address's death count cleared and exactly one alive edge; for every other type nothing is revived *)
+Theorem C16_data_udp_traffic_revives_dead :
+  forall cfg h n d l, is_data d = true -> model_alive cfg h n d = false ->
+    let m := m_run cfg (h ++ [ETrafficOk n d l]) in
+    d_alive (m_d m n) d = true /\ md_fail (m_d m n) (index_of d) = 0 /\ md_traffic (m_d m n) (index_of d) = 0
+    /\ (c_addr cfg n <> 0 -> m_tracker m (c_addr cfg n) = 0) /\ m_tlog m = [(n, d, true)].
+Proof. exact C16_data_udp_traffic_revives_dead_proof. Qed.
+Print Assumptions C16_data_udp_traffic_revives_dead.
+
+Theorem C16_traffic_success_other_types :
+  forall cfg h n d l, is_data d = false ->
+    (forall n' d', model_alive cfg (h ++ [ETrafficOk n d l]) n' d' = model_alive cfg h n' d')
+    /\ m_tlog (m_run cfg (h ++ [ETrafficOk n d l])) = [].
+Proof. exact C16_traffic_success_other_types_proof. Qed.
+Print Assumptions C16_traffic_success_other_types.
+
+(* false of the variant whose early return "traffic streak = 0" precedes the revival check *)
+Theorem C16_data_udp_traffic_revives_early_return_refuted :
+  let h := repeat (EFail 0 DataUdp4 KTrans false []) 3 in
+  model_alive wit_cfg1 h 0 DataUdp4 = false
+  /\ md_traffic (m_d (m_run wit_cfg1 h) 0) (index_of DataUdp4) = 0
+  /\ d_alive (m_d (traffic_ok_early_return wit_cfg1 (clear_logs (m_run wit_cfg1 h)) 0 DataUdp4 []) 0) DataUdp4 = false
+  /\ model_alive wit_cfg1 (h ++ [ETrafficOk 0 DataUdp4 []]) 0 DataUdp4 = true.
+Proof. exact C16_data_udp_traffic_revives_early_return_refuted_proof. Qed.
+Print Assumptions C16_data_udp_traffic_revives_early_return_refuted.
+
 (* ---- callbacks fire exactly on flips, for every event of every history (reloads: relative to the fresh
    generation's all-alive dialers) ------------------------------------------------------------------- *)
 Theorem C16_edge_triggered :
